@@ -3,7 +3,7 @@ import json
 FNS = ["ceil", "floor", "int", "signum", "abs", "negate", "add", "subtract", "multiply", "divide", "modulo", "lessthan", "greaterthan",
        "lessthanorequalto", "greaterthanorequalto", "equal", "notequal", "pow", "log", "min", "max", "parseint",
        "upper", "lower", "title", "strlen", "reverse", "chomp", "trimspace", "substr", "join", "split", "indent", "trim", "trimprefix",
-       "trimsuffix", "replace", "format", "formatlist", "jsonencode", "jsonencode>jsondecode", "csvdecode"]
+       "trimsuffix", "replace", "format", "formatlist", "jsonencode", "jsonencode>jsondecode", "csvdecode", "formatdate", "timeadd"]
 
 def run(c, a):
     c.rule_text = ("TextRef.tla gives, over exact rationals and sequences of abstract characters, the result of the numeric functions (arithmetic and "
